@@ -11,6 +11,7 @@ import (
 	"encoding/json"
 	"fmt"
 	"net/url"
+	"runtime/debug"
 	"sort"
 	"strconv"
 	"strings"
@@ -29,11 +30,12 @@ func init() {
 			"every security scheme kind and OAuth2 flow, every host/basePath/schemes combination, responses with/without schema × with/without headers × produces, " +
 			"operation summary / description / deprecated / tags and security requirements at operation and document level (empty lists and zero values included), " +
 			"each as a one-feature document; then a seeded random stream of type-directed OpenAPI 2 documents (shared parameters/responses/definitions with references, " +
-			"nested/allOf/additionalProperties schemas, x-nullable, discriminator, file uploads, body or form parameters). " +
+			"nested/allOf/additionalProperties schemas, x-nullable with true / false / non-boolean values, discriminator, file uploads, body or form parameters). " +
 			"A case is non-trivial when the model reports at least one feature branch (keyword@position, reference kind, exclusion class).",
 		Exhaustive: true,
 		Gen:        genC17,
 		Run:        runC17,
+		RunChild:   runC17Child,
 		Compare:    cmpC17,
 		Shrink:     shrinkC17,
 		Workers:    8,
@@ -50,7 +52,99 @@ func init() {
 
 // ---------------------------------------------------------------- real code
 
+// runC17: a reference inside an additionalProperties schema is followed by the reference rewriters of both
+// directions (convertRefsInV3SchemaRef / convertRefsInV2SchemaRef); after ResolveRefsIn such a reference carries its
+// resolved value, and a rewriter that enters it recurses without end on a cyclic definition (fatal stack overflow,
+// not recoverable in-process). Those documents are evaluated in a (pooled) child process, the rest in-process.
 func runC17(c hx.Case) any {
+	if d := c17_jmap(c["doc"]); d != nil && c17RefUnderAddl(d, false) && c17CyclicDefs(d) {
+		return hx.RunIsolated("C17", c, 30000)
+	}
+	return runC17Direct(c)
+}
+
+// runC17Child: the conversions are shallow; a small stack limit makes an unbounded recursion die at once
+// instead of after a gigabyte of stack.
+func runC17Child(c hx.Case) any {
+	debug.SetMaxStack(48 << 20)
+	return runC17Direct(c)
+}
+
+// c17CyclicDefs: some definition reaches itself through references
+func c17CyclicDefs(d map[string]any) bool {
+	defs := c17_jmap(d["definitions"])
+	edges := map[string][]string{}
+	var collect func(v any, out *[]string)
+	collect = func(v any, out *[]string) {
+		switch x := v.(type) {
+		case map[string]any:
+			if r, ok := x["$ref"].(string); ok && strings.HasPrefix(r, "#/definitions/") {
+				*out = append(*out, r[len("#/definitions/"):])
+			}
+			for _, y := range x {
+				collect(y, out)
+			}
+		case []any:
+			for _, y := range x {
+				collect(y, out)
+			}
+		}
+	}
+	for k, v := range defs {
+		var l []string
+		collect(v, &l)
+		edges[k] = l
+	}
+	state := map[string]int{}
+	var visit func(k string) bool
+	visit = func(k string) bool {
+		switch state[k] {
+		case 1:
+			return true
+		case 2:
+			return false
+		}
+		state[k] = 1
+		for _, n := range edges[k] {
+			if visit(n) {
+				return true
+			}
+		}
+		state[k] = 2
+		return false
+	}
+	for k := range defs {
+		if visit(k) {
+			return true
+		}
+	}
+	return false
+}
+
+func c17RefUnderAddl(v any, under bool) bool {
+	switch x := v.(type) {
+	case map[string]any:
+		if under {
+			if _, ok := x["$ref"].(string); ok {
+				return true
+			}
+		}
+		for k, y := range x {
+			if c17RefUnderAddl(y, under || k == "additionalProperties") {
+				return true
+			}
+		}
+	case []any:
+		for _, y := range x {
+			if c17RefUnderAddl(y, under) {
+				return true
+			}
+		}
+	}
+	return false
+}
+
+func runC17Direct(c hx.Case) any {
 	raw, err := json.Marshal(c["doc"])
 	if err != nil {
 		return map[string]any{"kind": "badcase"}
@@ -803,6 +897,12 @@ func cmpC17(c hx.Case, impl any, reply map[string]any) hx.Verdict {
 	if im == nil || model == nil || spec == nil {
 		return hx.Verdict{IM: false, IS: im != nil && im["panic"] == nil, Detail: "missing observation"}
 	}
+	if cr, isCrash := im["crash"]; isCrash {
+		return hx.Verdict{IM: false, IS: false, Detail: "the conversion killed the process: " + trunc(fmt.Sprint(cr))}
+	}
+	if im["hang"] == true {
+		return hx.Verdict{IM: false, IS: false, Detail: "the conversion did not return within 30 s"}
+	}
 	if _, p := im["panic"]; p {
 		return hx.Verdict{IM: false, IS: false, Detail: "implementation panicked: " + fmt.Sprint(im["panic"]) + " at " + fmt.Sprint(im["site"])}
 	}
@@ -1000,8 +1100,9 @@ func (g *g17) schema(depth int, density int) map[string]any {
 	}
 	m := map[string]any{"type": ty}
 	g.constraints(m, ty, density, false)
-	if g.r.Chance(12) {
-		m["x-nullable"] = true
+	if g.r.Chance(14) {
+		// the extension's VALUE decides: true is nullability, false and non-boolean values are not
+		m["x-nullable"] = g.pick(true, true, true, false, false, "yes", 1)
 	}
 	if g.r.Chance(6) {
 		m[hx.Pick(g.r, []string{"readOnly", "writeOnly"})] = true
@@ -1128,19 +1229,15 @@ func (g *g17) param(name, in string, density int) map[string]any {
 func (g *g17) formParam(name string, density int) map[string]any {
 	if g.r.Chance(25) {
 		p := map[string]any{"name": name, "in": "formData", "type": "file"}
-		if !g.clean && g.r.Chance(40) {
+		if g.r.Chance(40) {
 			p["required"] = true
 		}
 		return p
 	}
+	// required and format come back since 9a423cc / ddd71cc
 	p := g.param(name, "formData", density)
 	delete(p, "required")
-	if g.clean {
-		delete(p, "format")
-		if it := c17_jmap(p["items"]); it != nil {
-			_ = it
-		}
-	} else if g.r.Chance(35) {
+	if g.r.Chance(35) {
 		p["required"] = true
 	}
 	return p
@@ -1356,6 +1453,31 @@ func genC17Exhaustive(emit func(hx.Case)) {
 		d := c17Doc(map[string]any{"/x": map[string]any{"get": c17Op("g", nil, map[string]any{"200": map[string]any{"description": "ok", "schema": map[string]any{"$ref": "#/definitions/D"}}})}})
 		d["definitions"] = map[string]any{"D": s, "E": map[string]any{"type": "object"}}
 		emit(hx.Case{"doc": d})
+	}
+	// x-nullable with every kind of value at every schema position (only the boolean true means nullable)
+	for _, xv := range []any{true, false, "yes", 0, 1} {
+		xs := map[string]any{"type": "string", "x-nullable": xv}
+		for _, def := range []any{
+			xs,
+			map[string]any{"type": "object", "properties": map[string]any{"p": xs}},
+			map[string]any{"type": "array", "items": xs},
+			map[string]any{"allOf": []any{xs}},
+			map[string]any{"type": "object", "additionalProperties": xs},
+			map[string]any{"type": "object", "properties": map[string]any{"p": map[string]any{"type": "array", "items": map[string]any{"allOf": []any{xs}}}}},
+		} {
+			d := c17Doc(map[string]any{"/x": map[string]any{"get": c17Op("g", nil, nil)}})
+			d["definitions"] = map[string]any{"D": def}
+			emit(hx.Case{"doc": d})
+		}
+		emit(hx.Case{"doc": c17Doc(map[string]any{"/x": map[string]any{"post": c17Op("p", []any{map[string]any{"name": "b", "in": "body", "schema": xs}}, nil)}})})
+		emit(hx.Case{"doc": c17Doc(map[string]any{"/x": map[string]any{"get": c17Op("g", nil, map[string]any{"200": map[string]any{"description": "ok", "schema": xs}})}})})
+		sb := c17Doc(map[string]any{"/x": map[string]any{"put": c17Op("u", []any{map[string]any{"$ref": "#/parameters/bp"}}, map[string]any{"200": map[string]any{"$ref": "#/responses/r"}})}})
+		sb["parameters"] = map[string]any{"bp": map[string]any{"name": "payload", "in": "body", "schema": map[string]any{"type": "object", "properties": map[string]any{"a": xs}}}}
+		sb["responses"] = map[string]any{"r": map[string]any{"description": "ok", "schema": map[string]any{"type": "array", "items": xs}}}
+		emit(hx.Case{"doc": sb})
+		// items of an array parameter / header go through ToV3SchemaRef too
+		ap := map[string]any{"name": "q", "in": "query", "type": "array", "items": xs}
+		emit(hx.Case{"doc": c17Doc(map[string]any{"/x": map[string]any{"get": c17Op("g", []any{ap}, map[string]any{"200": map[string]any{"description": "ok", "headers": map[string]any{"X-L": map[string]any{"type": "array", "items": xs}}}})}})})
 	}
 	// file uploads
 	for _, req := range []bool{false, true} {
@@ -1636,10 +1758,7 @@ func (g *g17) randomDoc() map[string]any {
 		d["basePath"] = g.pick("/", "/v1", "/v1/api")
 	}
 	if r.Chance(50) {
-		d["schemes"] = g.pick([]any{"https"}, []any{"http"}, []any{"http", "https"}, []any{"https", "ws"})
-		if g.clean {
-			d["schemes"] = g.pick([]any{"https"}, []any{"http"}, []any{"http", "https"})
-		}
+		d["schemes"] = g.pick([]any{"https"}, []any{"http"}, []any{"http", "https"}, []any{"https", "ws"}, []any{"wss", "ws", "http"}, []any{"wss"})
 	}
 	if r.Chance(30) {
 		d["consumes"] = g.pick([]any{"application/json"}, []any{"application/xml"}, []any{"application/json", "text/plain"})
@@ -1649,9 +1768,6 @@ func (g *g17) randomDoc() map[string]any {
 	}
 	if r.Chance(30) {
 		d["produces"] = hx.Pick(r, c17Produces[2:])
-		if g.clean {
-			d["produces"] = g.pick([]any{"application/json"}, []any{"application/json", "application/xml"})
-		}
 	}
 	// shared parameters and responses
 	sharedQ, sharedB, sharedF := []string{}, []string{}, []string{}
@@ -1851,9 +1967,6 @@ func (g *g17) randomDoc() map[string]any {
 			}
 			if r.Chance(35) {
 				op["produces"] = hx.Pick(r, c17Produces[2:])
-				if g.clean {
-					op["produces"] = g.pick([]any{"application/json"}, []any{"application/json", "application/xml"})
-				}
 			}
 			pi[m] = op
 		}
